@@ -73,9 +73,10 @@ def coq_view(v, case):
                           (cstr(p["fcname"]), coq_fc(p["fc"]), ups, cbool(p["log"])))
     keys = [bytes(k) for k in v["keys"]]
     vkeys = clist([cbool(bytes(h) in keys) for h in case["hosts"]])
-    return ("{| v_present := true; v_stopped := %s; v_eps := %s; v_fcs := %s; v_gates := %s; v_probes := %s; "
+    enf = clist([coq_fck(f) for f in v.get("enf", [])])
+    return ("{| v_present := true; v_stopped := %s; v_eps := %s; v_fcs := %s; v_enf := %s; v_gates := %s; v_probes := %s; "
             "v_names := %s; v_tls := (%s, %s, %s); v_verify := (%s, %s); v_keys := %s |}" %
-            (cbool(v["stopped"]), veps, clist([coq_fc(f) for f in v["fcs"]]), clist([cbool(g) for g in v["gates"]]),
+            (cbool(v["stopped"]), veps, clist([coq_fc(f) for f in v["fcs"]]), enf, clist([cbool(g) for g in v["gates"]]),
              clist(probes), clist([cstr(n) for n in v["names"]]), cbool(v["tlsok"]), cZ(v["cert"]), cZ(v["ca"]),
              cbool(v["vok"]), cZ(v["vca"]), vkeys))
 
@@ -182,6 +183,20 @@ def corpus():
                   AP(O(b"a", fc=[S(b"s1", 0), S(b"s2", 1, 7, strat=2, glob=3)], pol=[P(["list"], b"s1"), P(["*"])])),
                   AP(O(b"a", fc=[], pol=[P(["create", "delete"])])),
                   AP(O(b"a", fc=[S(b"s1", 2, 1, 1), S(b"s3", 1, 0)], pol=[P(["*"], b"s3", log=1)], log=2))], [b"a"]))
+    # limits must be ENFORCED, not only reported: only the burst changes (raised, lowered), only the rate, both, a
+    # max-in-flight resize, a type change and back, delete and re-add with other limits (seeded/C11-g)
+    def TBO(q, b, **kw):
+        return O(b"a", fc=[S(b"s1", 2, q, b, **kw)], pol=[P(["*"], b"s1")])
+    cs.append(mk([AP(TBO(5, 10)), AP(TBO(5, 50))], [b"a"]))
+    cs.append(mk([AP(TBO(5, 50)), AP(TBO(5, 5))], [b"a"]))
+    cs.append(mk([AP(TBO(5, 10)), AP(TBO(50, 50)), AP(TBO(50, 60)), AP(TBO(1, 60)), AP(TBO(1, 1))], [b"a"]))
+    cs.append(mk([AP(TBO(5, 10, strat=2, glob=10)), AP(TBO(5, 11, strat=2, glob=10)), AP(TBO(5, 11, strat=3, glob=1))], [b"a"]))
+    cs.append(mk([AP(O(b"a", fc=[S(b"s1", 1, 5), S(b"s2", 2, 5, 10)], pol=[P(["*"], b"s2")])),
+                  AP(O(b"a", fc=[S(b"s1", 1, 100), S(b"s2", 2, 5, 15)], pol=[P(["*"], b"s2")])),
+                  AP(O(b"a", fc=[S(b"s1", 2, 1, 100), S(b"s2", 1, 15)], pol=[P(["*"], b"s2")])),
+                  AP(O(b"a", fc=[S(b"s1", 2, 1, 1)], pol=[P(["*"])])),
+                  AP(O(b"a", fc=[S(b"s1", 2, 1, 2), S(b"s2", 2, 5, 15)], pol=[P(["*"], b"s2")])),
+                  AP(O(b"a", fc=[S(b"s1", 1, 0), S(b"s2", 0)], pol=[P(["*"], b"s2")]))], [b"a"]))
     # endpoints: disabled nil / false / true, removal, restoration, subsets, duplicates
     cs.append(mk([AP(O(b"a", eps=((0, 0), (1, 2), (2, 1)), pol=[P(["get"], subset=[1]), P(["*"])])),
                   AP(O(b"a", eps=((1, 0), (3, 2)), pol=[P(["*"], subset=[1, 3])])),
